@@ -8,10 +8,27 @@ namespace Teleport
 namespace C05
 open Bytes
 
-/-- `decodeArg(AppendQuotedArg(s)) = s` for every byte string (with or without `+` decoding);
-    in particular the un-quoting never reaches the out-of-range table index. -/
-theorem C05_quote_roundtrip (plus : Bool) (s : Bytes) : unquote plus (quote s) = some s :=
-  unquote_quote plus s
+/-- `decodeArg(AppendQuotedArg(s)) = s` for every byte string (with or without `+` decoding), with
+    the 256-entry hex table of `utils/bytesconv.go` and with the 255-entry copy in goutil's status
+    package; in particular the latter never reaches its out-of-range table index on quoted input. -/
+theorem C05_quote_roundtrip (t : HexTab) (plus : Bool) (s : Bytes) : unquote t plus (quote s) = some s :=
+  unquote_quote t plus s
+
+/-- Metadata parsing (`utils.Args.ParseBytes`, run on the metadata field of every received frame)
+    returns on EVERY byte string: with the 256-entry `hex2intTable` the decoder has no panic point
+    (before the repair `%` followed within two bytes by `0xff` indexed a 255-entry table out of range). -/
+theorem C05_args_parse_total : ∀ b : Bytes, (Args.parse b).isSome = true := Args.parse_total
+
+/-- the former panic input now decodes: `%\xff\x00` is not an escape, the three bytes are the key. -/
+theorem C05_args_parse_ff : Args.parse [37, 255, 0] = some [([37, 255, 0], [])] := by
+  simp [Args.parse, Args.scanAll, Args.scanOne, Args.decodeSeg, Args.splitAmp, Args.splitEq, unquote, hexValT,
+    hexValFixed]
+
+/-- goutil's status decoder is outside this repository and keeps its 255-entry table: the same
+    bytes in the status field still panic (recovered by the read loop: the frame is rejected). -/
+theorem C05_status_decode_ff_panics : Status.decode [37, 255, 0] = none := by
+  simp [Status.decode, Args.scanAll, Args.scanOne, Args.decodeSeg, Args.splitAmp, Args.splitEq, unquote, hexValT,
+    hexVal]
 
 /-- Metadata is an ordered multimap of arbitrary byte strings: parsing the query string of any
     list of pairs gives back exactly the pairs that are not (empty key, empty value), in order. -/
